@@ -25,6 +25,10 @@ package main
 //   cryptoconc  every package-level entry point of crypto from N goroutines with their own keys: all RSA
 //           encryption algorithms (PKCS1v15, OAEP with the four digests, labels up to 64 KiB), all ten
 //           signature algorithms, all symmetric algorithms; judged against results obtained alone.
+//   keymeta DIFFERENT key material (RSA, EC P-256/384/521, Ed25519, symmetric) under the same kid / alg / use,
+//           one key after the other and all at once; every sign / verify / encrypt / decrypt against what
+//           the same material gives as a JWK without metadata.
+//   encburst goroutines leave a barrier and encrypt many tiny documents: no two documents share a file key.
 //   logapi  (child process, so that a runtime "fatal error" becomes a failing case) the logger API as a
 //           whole: NewLogger of fresh shared/own names concurrently with logging calls, then concurrently
 //           with ApplyOptionsToLoggers.
@@ -256,6 +260,7 @@ func runPipe(p pipeSpec, he, hd *hooks) (cls string, hdrLen int, detail string) 
 	}
 	encR, err := v1.Encrypt(&chunkReader{data: append([]byte(nil), msg...), chunk: p.Chunk, hook: he.src, eofData: p.EOFData}, v1.EncryptOptions{
 		WrapKeyFn: func(pk []byte, alg, kn string, nonce []byte) ([]byte, []byte, error) {
+			noteFileKey(pk)
 			if he.key != nil {
 				he.key()
 			}
@@ -830,11 +835,27 @@ func regObs(names []int, ls []logger.Logger) string {
 
 var regRun int
 
+// regName: DISTINCT names that a registry keyed by something weaker than the exact string would
+// confuse: n and n^1 differ only in letter case, n and n^2 only in a trailing space, n^4 in a dot
+func regName(seed uint64, run, n int) string {
+	base := fmt.Sprintf("c08/%d/%d/Scope%d", seed, run, n/8)
+	if n&1 != 0 {
+		base = strings.ToLower(base)
+	}
+	if n&2 != 0 {
+		base += " "
+	}
+	if n&4 != 0 {
+		base += ".x"
+	}
+	return base
+}
+
 func c08Reg(ctx *core.Ctx, in c08Input) {
 	regRun++
 	ls := make([]logger.Logger, len(in.Names))
 	for i, n := range in.Names {
-		ls[i] = logger.NewLogger(fmt.Sprintf("c08/%d/%d/%d", ctx.Seed, regRun, n))
+		ls[i] = logger.NewLogger(regName(ctx.Seed, regRun, n))
 	}
 	c := hx.Case{Kind: "reg", Input: hx.MustJSON(in), Facts: map[string]any{},
 		Class: fmt.Sprintf("reg/%v", in.Names), Trivial: len(in.Names) < 2,
@@ -1465,11 +1486,282 @@ func c08RegRace(ctx *core.Ctx, in c08Input) {
 }
 
 // ---------------------------------------------------------------------------------------
+// file keys: every Encrypt must draw a fresh one (what WrapKeyFn is given)
+
+var (
+	fkMu   sync.Mutex
+	fkSeen map[string]int
+)
+
+func noteFileKey(pk []byte) {
+	fkMu.Lock()
+	if fkSeen != nil {
+		fkSeen[string(pk)]++
+	}
+	fkMu.Unlock()
+}
+
+func fileKeysStart() {
+	fkMu.Lock()
+	fkSeen = map[string]int{}
+	fkMu.Unlock()
+}
+
+// fileKeysEnd: (documents, documents that share their file key with another one)
+func fileKeysEnd() (n, dup int) {
+	fkMu.Lock()
+	defer fkMu.Unlock()
+	for _, c := range fkSeen {
+		n += c
+		if c > 1 {
+			dup += c
+		}
+	}
+	fkSeen = nil
+	return
+}
+
+// c08EncBurst: goroutines leave a barrier and encrypt many tiny documents each; every Encrypt must
+// succeed, every document must decrypt to its message, and no two documents may share a file key.
+func c08EncBurst(ctx *core.Ctx, in c08Input) {
+	W, R := in.Workers, in.Rounds
+	fileKeysStart()
+	results := make([]string, W)
+	var wg sync.WaitGroup
+	var ready atomic.Int32
+	for w := 0; w < W; w++ {
+		wg.Add(1)
+		go func(w int) {
+			defer wg.Done()
+			r := hx.NewRand(in.Seed + uint64(w))
+			ready.Add(1)
+			for ready.Load() < int32(W) {
+				runtime.Gosched()
+			}
+			results[w] = "Same"
+			for k := 0; k < R; k++ {
+				p := pipeSpec{Len: r.Range(1, 40), Seed: r.U64(), Chacha: r.Bool(), KN: r.Range(1, 8)}
+				if cl, _, d := runPipe(p, nil, nil); cl != "Same" {
+					results[w] = cl + ": " + d
+					break
+				}
+			}
+		}(w)
+	}
+	wg.Wait()
+	n, dup := fileKeysEnd()
+	var classes, notes []string
+	for w, res := range results {
+		if res == "Same" {
+			classes = append(classes, "Same")
+		} else {
+			cl := "Differs"
+			if strings.HasPrefix(res, "Panicked") {
+				cl = "Panicked"
+			}
+			classes = append(classes, cl)
+			notes = append(notes, fmt.Sprintf("worker %d: %s", w, res))
+		}
+	}
+	if dup == 0 {
+		classes = append(classes, "Same")
+	} else {
+		classes = append(classes, "Differs")
+		notes = append(notes, fmt.Sprintf("%d of %d documents share their file key with another document", dup, n))
+	}
+	c := hx.Case{Kind: "encburst", Input: hx.MustJSON(in), Facts: map[string]any{},
+		Class: fmt.Sprintf("encburst/%d/%d/%d", W, R, in.Seed), Trivial: W < 2,
+		Observed: map[string]any{"documents": n, "shared_file_keys": dup, "notes": notes}, Coq: "CObs " + coqClasses(classes)}
+	if len(notes) > 0 {
+		if len(notes) > 4 {
+			notes = notes[:4]
+		}
+		c.Note = strings.Join(notes, "; ")
+	}
+	ctx.Sink.Count("kind=encburst")
+	ctx.Sink.Add(c)
+}
+
+// ---------------------------------------------------------------------------------------
+// keys with equal metadata: DIFFERENT key material under the same kid / alg / use (another tenant's
+// key of the same name, a key rotated under its name).  Every result is compared with what the same
+// key material gives as a JWK WITHOUT any metadata (a reference no label-keyed memo can confuse).
+
+type metaKey struct {
+	typ      string
+	labelled jwk.Key
+	plain    jwk.Key
+}
+
+func withMeta(raw any, kid, alg string) jwk.Key {
+	k, err := jwk.FromRaw(raw)
+	if err != nil {
+		panic(err)
+	}
+	if kid != "" {
+		_ = k.Set(jwk.KeyIDKey, kid)
+		_ = k.Set(jwk.KeyUsageKey, "sig")
+		if alg != "" {
+			_ = k.Set(jwk.AlgorithmKey, alg)
+		}
+	}
+	return k
+}
+
+func metaKeys(r *hx.Rand, kid string, perType int) []metaKey {
+	rsaKey(0)
+	var ks []metaKey
+	for i := 0; i < perType; i++ {
+		ks = append(ks, metaKey{"RSA", withMeta(rsaRaw[i%len(rsaRaw)], kid, "PS256"), withMeta(rsaRaw[i%len(rsaRaw)], "", "")})
+		for _, cv := range []elliptic.Curve{elliptic.P256(), elliptic.P384(), elliptic.P521()} {
+			ek, _ := ecdsa.GenerateKey(cv, crand.Reader)
+			ks = append(ks, metaKey{"EC" + cv.Params().Name, withMeta(ek, kid, "ES256"), withMeta(ek, "", "")})
+		}
+		_, ed, _ := ed25519.GenerateKey(crand.Reader)
+		ks = append(ks, metaKey{"Ed25519", withMeta(ed, kid, "EdDSA"), withMeta(ed, "", "")})
+		sym := r.Bytes(32)
+		ks = append(ks, metaKey{"sym", withMeta(sym, kid, "A256GCM"), withMeta(sym, "", "")})
+	}
+	return ks
+}
+
+// metaOps: every operation the key type supports with the LABELLED key, against the plain one
+func metaOps(k metaKey, r *hx.Rand) (bad []string) {
+	defer func() {
+		if rec := recover(); rec != nil {
+			bad = append(bad, "panic: "+fmt.Sprint(rec))
+		}
+	}()
+	fail := func(f string, a ...any) { bad = append(bad, k.typ+": "+fmt.Sprintf(f, a...)) }
+	msg := r.Bytes(r.Range(1, 40))
+	dig := r.Bytes(32)
+	signBoth := func(alg string, d []byte, deterministic bool) {
+		sl, err := kitcrypto.SignPrivateKey(d, alg, k.labelled)
+		if err != nil {
+			fail("%s sign: %v", alg, err)
+			return
+		}
+		sp, err := kitcrypto.SignPrivateKey(d, alg, k.plain)
+		if err != nil {
+			fail("%s sign (plain): %v", alg, err)
+			return
+		}
+		if deterministic && !bytes.Equal(sl, sp) {
+			fail("%s signature differs from the one the same key gives without metadata", alg)
+		}
+		for _, c := range []struct {
+			sig []byte
+			key jwk.Key
+			who string
+		}{{sl, k.plain, "labelled signature / plain key"}, {sp, k.labelled, "plain signature / labelled key"}, {sl, k.labelled, "own"}} {
+			if ok, err := kitcrypto.VerifyPublicKey(d, c.sig, alg, c.key); err != nil || !ok {
+				fail("%s verify (%s): %v", alg, c.who, err)
+			}
+		}
+	}
+	switch {
+	case k.typ == "RSA":
+		signBoth("RS256", dig, true)
+		signBoth("PS256", dig, false)
+		for _, alg := range []string{"RSA-OAEP-256", "RSA1_5", "RSA-OAEP"} {
+			for _, pair := range [][2]jwk.Key{{k.plain, k.labelled}, {k.labelled, k.plain}, {k.labelled, k.labelled}} {
+				pub, _ := pair[0].PublicKey()
+				ct, _, err := kitcrypto.Encrypt(msg, alg, pub, nil, nil)
+				if err != nil {
+					fail("%s encrypt: %v", alg, err)
+					continue
+				}
+				pt, err := kitcrypto.Decrypt(ct, alg, pair[1], nil, nil, nil)
+				if err != nil || !bytes.Equal(pt, msg) {
+					fail("%s: encrypted for this key, does not decrypt with it: %v", alg, err)
+				}
+			}
+		}
+	case strings.HasPrefix(k.typ, "EC"):
+		alg := map[string]string{"ECP-256": "ES256", "ECP-384": "ES384", "ECP-521": "ES512"}[k.typ]
+		d := dig
+		if alg == "ES384" {
+			d = r.Bytes(48)
+		} else if alg == "ES512" {
+			d = r.Bytes(64)
+		}
+		signBoth(alg, d, false)
+	case k.typ == "Ed25519":
+		signBoth("EdDSA", msg, true)
+	case k.typ == "sym":
+		for _, alg := range []string{"A256GCM", "A256KW", "A256CBC", "C20P"} {
+			nonce := symNonce(alg, r)
+			pt := r.Bytes(32)
+			c1, t1, e1 := kitcrypto.Encrypt(pt, alg, k.labelled, nonce, nil)
+			c2, t2, e2 := kitcrypto.Encrypt(pt, alg, k.plain, nonce, nil)
+			if (e1 == nil) != (e2 == nil) || !bytes.Equal(c1, c2) || !bytes.Equal(t1, t2) {
+				fail("%s ciphertext differs from the one the same key gives without metadata", alg)
+				continue
+			}
+			if e1 == nil {
+				if back, err := kitcrypto.Decrypt(c2, alg, k.labelled, nonce, t2, nil); err != nil || !bytes.Equal(back, pt) {
+					fail("%s decrypt: %v", alg, err)
+				}
+			}
+		}
+	}
+	return
+}
+
+func c08KeyMeta(ctx *core.Ctx, in c08Input) {
+	r := hx.NewRand(in.Seed)
+	kid := fmt.Sprintf("c08-kid-%d", in.Seed%3) // a few kids over the whole run: also across cases
+	keys := metaKeys(r, kid, 3)
+	var classes, notes []string
+	add := func(phase string, i int, bad []string) {
+		if len(bad) == 0 {
+			classes = append(classes, "Same")
+			return
+		}
+		classes = append(classes, "Differs")
+		notes = append(notes, fmt.Sprintf("%s, key %d (kid %s): %s", phase, i, kid, bad[0]))
+	}
+	// one after the other (whichever key comes first would win a memo keyed on the label) ...
+	for i, k := range keys {
+		add("sequential", i, metaOps(k, r.Fork()))
+	}
+	// ... and all at once
+	res := make([][]string, len(keys))
+	var wg sync.WaitGroup
+	for i := range keys {
+		rr := r.Fork()
+		wg.Add(1)
+		go func(i int, rr *hx.Rand) {
+			defer wg.Done()
+			for rep := 0; rep < 2; rep++ {
+				res[i] = append(res[i], metaOps(keys[i], rr)...)
+			}
+		}(i, rr)
+	}
+	wg.Wait()
+	for i := range keys {
+		add("concurrent", i, res[i])
+	}
+	c := hx.Case{Kind: "keymeta", Input: hx.MustJSON(in), Facts: map[string]any{},
+		Class: fmt.Sprintf("keymeta/%d", in.Seed), Observed: map[string]any{"keys": len(keys), "kid": kid, "notes": notes},
+		Coq: "CObs " + coqClasses(classes)}
+	if len(notes) > 0 {
+		if len(notes) > 4 {
+			notes = notes[:4]
+		}
+		c.Note = strings.Join(notes, "; ")
+	}
+	ctx.Sink.Count("kind=keymeta")
+	ctx.Sink.Add(c)
+}
+
+// ---------------------------------------------------------------------------------------
 // crypto: every package-level entry point, concurrently, against results obtained alone
 
 var (
 	rsaKeysOnce sync.Once
 	rsaKeys     []jwk.Key
+	rsaRaw      []*rsa.PrivateKey
 )
 
 func rsaKey(i int) jwk.Key {
@@ -1484,6 +1776,7 @@ func rsaKey(i int) jwk.Key {
 				panic(err)
 			}
 			rsaKeys = append(rsaKeys, j)
+			rsaRaw = append(rsaRaw, pk)
 		}
 	})
 	return rsaKeys[i%len(rsaKeys)]
@@ -2113,6 +2406,10 @@ func c08Run(ctx *core.Ctx, in c08Input) {
 		c08PoolSeq(ctx, in)
 	case "cryptoconc":
 		c08CryptoConc(ctx, in)
+	case "keymeta":
+		c08KeyMeta(ctx, in)
+	case "encburst":
+		c08EncBurst(ctx, in)
 	case "logapi":
 		c08LogAPI(ctx, in)
 	case "race":
@@ -2255,6 +2552,9 @@ func c08Gen(ctx *core.Ctx) {
 		names := make([]int, r.Range(1, 12))
 		for i := range names {
 			names[i] = r.Intn(5)
+			if r.Chance(1, 2) {
+				names[i] = r.Intn(24) // names differing only in case / trailing space / suffix
+			}
 		}
 		c08Run(ctx, c08Input{Kind: "reg", Names: names})
 	}
@@ -2264,6 +2564,14 @@ func c08Gen(ctx *core.Ctx) {
 	// many goroutines parsing specs of 4..7 time zones at the same time
 	for k := 0; k < 6*mult; k++ {
 		c08Run(ctx, c08Input{Kind: "cronconc", Workers: []int{4, 8, 16, 16, 8, 12}[k%6], Rounds: 400, Seed: r.U64()})
+	}
+	// different key material under equal metadata (kid / alg / use), one key after the other and all at once
+	for k := 0; k < 4*mult; k++ {
+		c08Run(ctx, c08Input{Kind: "keymeta", Seed: r.U64()})
+	}
+	// bursts of Encrypt calls leaving a barrier: fresh file key per document
+	for k := 0; k < 4*mult; k++ {
+		c08Run(ctx, c08Input{Kind: "encburst", Workers: []int{4, 8, 16, 8}[k%4], Rounds: 150, Seed: r.U64()})
 	}
 	// every crypto entry point from several goroutines with their own keys
 	for k := 0; k < 5*mult; k++ {
